@@ -5,19 +5,25 @@ HARNESS = "harness/c01_roundtrip.py"
 MODE = "corpus"
 EXPLANATION = ("For every round-trip class of the spec corpus the repository's own generator output is executed symbolically together with the real EoWriter/EoReader: "
                "structure (string lengths, array counts, optional presence, case selection) is value-forked, all leaf values are solver variables over their whole range.")
-BOUNDS = {"quick": "corpus: every wire-unambiguous class of corpus/core (programs quantifier = this fixed corpus); strings of length 0 or 1 (fixed-length ones at their length), arrays of 0, 1 or 2 elements (fixed at their length); integers/ordinals/code points over their full range",
-          "thorough": "same corpus; per class the richest of (lens<=1,counts<=2) (lens<=2,counts<=2) (lens<=3,counts<=2) (lens<=3,counts<=3) whose structure count stays <= 6000 (the choice is in each job name)"}
+BOUNDS = {"quick": "corpus: every wire-unambiguous class of corpus/core plus the units of a VERIF_SEED-chosen sample of the generated pair corpus that the static classifier props/unambiguous.py accepts; strings of length 0 or 1 (fixed-length ones at their length), arrays of 0, 1 or 2 elements (fixed at their length); integers/ordinals/code points over their full range",
+          "thorough": "core corpus plus ALL units of the generated pair corpus that the classifier accepts (about 5,300); per class the richest of (lens<=1,counts<=2) (lens<=2,counts<=2) (lens<=3,counts<=2) (lens<=3,counts<=3) whose structure count stays <= 6000 (the choice is in each job name)"}
 OUTSIDE = "specifications not in the corpus; longer strings and arrays; wire-ambiguous specs (C01's own quantifier excludes them)"
 ASSUMPTIONS = ["validity predicate of C01: cp1252-encodable strings, no y-diaeresis where sanitised or padded, no '~' in encoded strings, present optionals serialize to at least one byte, "
                "elements of unbounded delimited arrays begin with a non-empty first chunk (otherwise indistinguishable from end of data)"]
 
 
 def trees(tier):
-    return [("core", corpus.CORE)]
+    return [("core", corpus.CORE), ("pairs", corpus.pairs(tier, corpus.seed())[0])]
 
 
 def programs(tier):
-    return len(corpus.classes("roundtrip")[1])
+    return len(corpus.classes("roundtrip")[1]) + len(pair_units(tier))
+
+
+def pair_units(tier):
+    from .unambiguous import unambiguous
+    _, ptypes, pcls = corpus.pairs(tier, corpus.seed())
+    return [c for c in pcls if unambiguous(ptypes, c["instrs"], c["entry"])]
 
 
 THOROUGH = [{"lens": [0, 1], "counts": [0, 1, 2]}, {"lens": [0, 1, 2], "counts": [0, 1, 2]}, {"lens": [0, 1, 2, 3], "counts": [0, 1, 2]},
@@ -32,4 +38,11 @@ def jobs(tier):
         js.append(dict(name=f"roundtrip[{c['name']},lens={cfg['lens'][-1]},counts={cfg['counts'][-1]}]", fn="roundtrip",
                        args=[corpus.closure(types, c["instrs"]), c, cfg], tree="core", collect_models=2,
                        expect=["deserializer consumes exactly the bytes written"]))
+    # units of the generated pair corpus that a conservative static classifier (props/unambiguous.py) accepts as
+    # wire-unambiguous in the sense of C01's quantifier
+    _, ptypes, _ = corpus.pairs(tier, corpus.seed())
+    pcfg = {"lens": [0, 1], "counts": [0, 1, 2]} if tier == "quick" else {"lens": [0, 1, 2], "counts": [0, 1, 2]}
+    for c in pair_units(tier):
+        js.append(dict(name=f"roundtrip[pairs:{c['name']}]", fn="roundtrip", args=[corpus.closure(ptypes, c["instrs"]), c, pcfg], tree="pairs",
+                       collect_models=1, expect=["deserializer consumes exactly the bytes written"]))
     return js
